@@ -12,7 +12,7 @@ from sim.harness import draw_knobs
 
 ID = "C01"
 LEVEL = "exploration"
-RUNS = {"quick": 4000, "thorough": 90000}
+RUNS = {"quick": 3000, "thorough": 90000}
 WALL_CAP = {"quick": 150, "thorough": 3000}
 RULE = ("one case = one generated handler program (2-6 event names, 3-10 handler callables with scripts that "
         "post/post_boolean/post_relay with or without completion callback, add/replace/remove handlers by "
